@@ -1,5 +1,5 @@
 (* C01 — isolation (plan level): systems placed side by side never conflict. *)
-From Shred Require Import Base SrcParams Plan PlanObs PlanLemmas PlanInv PlanLoc PlanBuild PlanProps Exec ExecProps ExecPlan.
+From Shred Require Import Base SrcParams Plan PlanObs PlanLemmas PlanInv PlanLoc PlanBuild PlanProps Exec ExecProps ExecPlan BatchProps OracleProps.
 
 (* For every registration program: two systems in different groups of one stage have no
    W/W, W/R or R/W overlap of their declared access. *)
@@ -42,6 +42,22 @@ Theorem C01_acceptor_sound :
   forall l tl tr, NoDup (concat (concat l)) -> accept_disp l tl tr = true -> traces_disp l tl tr.
 Proof. exact accept_sound. Qed.
 Print Assumptions C01_acceptor_sound.
+
+(* ---- the oracle `isolated` that suite S1 evaluates on the REAL executed layout ---- *)
+(* what its `true` means, for ANY layout: two tags in different groups of one stage belong to
+   registered systems and nothing declared anywhere inside them conflicts *)
+Theorem C01_oracle_isolated_means_isolation :
+  forall rs l, o_isolated rs l = true ->
+  forall st i j g1 g2 a c, In st l -> i <> j -> nth_error st i = Some g1 -> nth_error st j = Some g2 ->
+    In a g1 -> In c g2 ->
+    exists ra rc, In ra rs /\ In rc rs /\ reg_tag ra = Some a /\ reg_tag rc = Some c /\ reg_conflict ra rc = false.
+Proof. exact o_isolated_meaning. Qed.
+Print Assumptions C01_oracle_isolated_means_isolation.
+(* and it is `true` on the layout the model builds: it can fire only on a real layout that differs *)
+Theorem C01_oracle_isolated_holds_on_model_layouts :
+  forall rs b, plan rs = Ok b -> regs_times_ok rs -> NoDup (sys_tags rs) -> o_isolated rs (layout_tags b) = true.
+Proof. exact o_isolated_on_model. Qed.
+Print Assumptions C01_oracle_isolated_holds_on_model_layouts.
 
 Example C01_example :
   let rs := [RSys 1 [] [] [8] [] 3%Z; RSys 2 [] [] [] [8] 3%Z; RSys 3 [] [] [8] [9] 3%Z] in
